@@ -64,6 +64,11 @@ class EventLog:
 
 
 # ------------------------------------------------------------------------------------------ models
+def tiny(v):
+    """Output conversion: predictions of magnitude 1e-10 (exact rationals) - totals far below any absolute tolerance."""
+    return v * F(1, 10 ** 10)
+
+
 class Model:
     """Deterministic pure model over named features; logs every input it receives.
 
@@ -71,7 +76,14 @@ class Model:
     kind 'multi' : labels 'A','B' always, 'C' only when the last feature exceeds a threshold, so the
                    label set depends on the input and grows over a stream.
     `ignored` (index or None): that feature does not influence the output at all.
+    `positional` (attribute, default False): the feature values are read by POSITION among the keys of the input (as
+        ixai's own SklearnWrapper / TorchWrapper do without feature names) - identical to reading by name as long as
+        every input has the canonical key order; an imputed instance must keep the key order of the explained one.
+    Every model additionally reads the optional, non-explained context key CTX with default 0 (x.get(CTX, 0)): an
+    imputed instance must carry the explained instance's context, never the one of a background row.
     """
+    CTX = 'zz_ctx'
+    positional = False
 
     def __init__(self, names, kind='scalar', ignored=None, log=None, inj=None, conv=None):
         self.names = list(names)
@@ -86,14 +98,19 @@ class Model:
 
     def f(self, x):
         """The pure function (no logging) – also used by the reference models. Memoised: it is pure."""
-        key = (self.kind, self.ignored, self.conv, tuple(x[n] for n in self.names))
+        ctx = x.get(self.CTX, 0) if hasattr(x, 'get') else 0
+        if self.positional:
+            vals = tuple(v for k, v in x.items() if k != self.CTX)[:len(self.names)]
+        else:
+            vals = tuple(x[n] for n in self.names)
+        key = (self.kind, self.ignored, self.conv, vals, ctx)
         out = Model._memo.get(key)
         if out is None:
-            out = Model._memo[key] = self._f(x)
+            out = Model._memo[key] = self._f(vals, ctx)
         return dict(out)
 
-    def _f(self, x):
-        v = [F(0) if j == self.ignored else x[n] for j, n in enumerate(self.names)]
+    def _f(self, vals, ctx=0):
+        v = [F(0) if j == self.ignored else vals[j] for j in range(len(self.names))]
         d = len(v)
         coef = [F(3), F(-2), F(5, 2), F(7, 3)]
         lin = sum(coef[j % 4] * v[j] for j in range(d))
@@ -112,6 +129,8 @@ class Model:
             out = {'A': lin + F(1, 2), 'B': inter - quad + F(2)}
             if v[d - 1] > F(1):     # the label set depends on the input (last feature: it is the one
                 out['C'] = quad + v[0]  # imputed longest under the default feature order)
+        if ctx:
+            out = {k: val + ctx * F(1, 8) for k, val in out.items()}
         if self.conv is not None:
             out = {k: self.conv(val) for k, val in out.items()}
         return out
@@ -219,6 +238,14 @@ def make_imputer_spy(inner, log, inj=None):
         def __init__(self):
             super().__init__(model_function=inner.model_function)
             self.inner = inner
+
+        def __getattr__(self, name):
+            # transparent for everything else (storage_object, sampling_strategy, values, ...): library code that looks at
+            # the imputer's public attributes sees those of the wrapped imputer
+            inner_ = self.__dict__.get('inner')
+            if inner_ is None or name.startswith('__'):
+                raise AttributeError(name)
+            return getattr(inner_, name)
 
         def impute(self, feature_subset, x_i, n_samples=None):
             if inj is not None:
